@@ -109,6 +109,12 @@ def main(argv: List[str]) -> int:
     defined: List[str] = []
     for node in tree.body:
         if isinstance(node, ast.ClassDef):
+            v = getattr(T, node.name, None)
+            import attrs as _attrs
+            import enum as _enum
+
+            if node.name.startswith("_") and isinstance(v, type) and not _attrs.has(v) and not issubclass(v, _enum.Enum):
+                continue  # a private helper class (mixin): not a protocol type
             defined.append(node.name)
         elif isinstance(node, ast.Assign) and len(node.targets) == 1 and isinstance(node.targets[0], ast.Name):
             nm = node.targets[0].id
